@@ -132,6 +132,48 @@ pub fn check(id: &str, tier: &str, seed: u64) -> Option<i32> {
                 vec![],
             ))
         }
+        "C10" => {
+            let mut g = crash_profile();
+            g.max_ops = if thorough { 15 } else { 12 };
+            g.min_keys = 4;
+            g.max_keys = 10;
+            g.w.reopen = 1;
+            g.w.clear = 0;
+            g.w.drop_range = 1;
+            g.w.ingest = 5;
+            g.tiny = false;
+            let cases = if thorough { 320 } else { 64 };
+            let out = explore_generic(
+                || crate::gen::case(&g),
+                cases,
+                seed,
+                if thorough { 40 } else { 20 },
+                |c: &crate::spec::Case| crate::corrupt::run(c, thorough),
+                crate::corrupt::nontrivial,
+                &crate::runner::load_known("C10"),
+                crate::runner::summarize_case,
+                3_600_000,
+            );
+            let faults = out.hist.get("c10.faults").copied().unwrap_or(0);
+            let regions: serde_json::Map<String, serde_json::Value> = out
+                .hist
+                .iter()
+                .filter(|(k, _)| k.starts_with("region."))
+                .map(|(k, v)| (k.clone(), json!(v)))
+                .collect();
+            Some(finish_generic(
+                "C10",
+                "corruption",
+                tier,
+                seed,
+                "fault_enumeration",
+                "small generated histories (3-15 ops, generated Config incl. partitioned index/filter, lz4, blob tree, ingestion with non-zero global seqno) produce a closed directory D. ENUMERATED per directory: for every file every byte position (quick: all positions of files <= 1 KiB - always `current` and the version file - and for larger files the first/last 64 bytes, every sfa section boundary and a stratified sample of 200 positions; thorough: every position) x XOR masks {0x01, 0x80, 0xFF}, plus truncations {0, 1, half, len-1, every section boundary, 8 random}. Each fault is applied to a fresh copy of D; an isolated worker process (RLIMIT_AS 4 GiB, 30 s watchdog, fresh cache and descriptor table) opens it and repeats the reference reads (table_count, persisted seqno, get of every pool key and absent probe at MAX and at the recorded visible seqno, full scans at both). Oracle: open and every read individually return exactly the reference answer or Err. A panic/abort of the worker is counted as a loud failure (tallied separately), not as a violation; a hang is exit 2. evaluations = directories; faults in coverage.faults; per-region fault counts in coverage.regions. Non-trivial = a non-empty directory on which at least one fault was detected (Err). Distinct = hash of the case.",
+                &["a panic or abort on corrupted input counts as 'reported' (nothing is served); only silently different data is a violation", "single fault per copy; bit flips and truncations only", "bounded sizes; not a proof"],
+                out,
+                json!({"faults": faults, "regions": regions}),
+                vec![],
+            ))
+        }
         _ => None,
     }
 }
@@ -201,6 +243,10 @@ pub fn replay(id: &str, path: &Path) -> Option<i32> {
         "C16" => {
             let case: crate::spec::Case = serde_json::from_value(v["case"].clone()).ok()?;
             Some(report(crate::fault::run(&case, true)))
+        }
+        "C10" => {
+            let case: crate::spec::Case = serde_json::from_value(v["case"].clone()).ok()?;
+            Some(report(crate::corrupt::run(&case, true)))
         }
         _ => None,
     }
